@@ -29,26 +29,33 @@ RDiv(a, b) == IF b.n > 0 THEN Norm(a.n * b.d, a.d * b.n) ELSE Norm(0 - a.n * b.d
 Trunc(a) == IF a.n >= 0 THEN a.n \div a.d ELSE 0 - ((0 - a.n) \div a.d)
 \* math.Mod: result has the sign of the dividend
 RMod(a, b) == RSub(a, RMulInt(b, Trunc(RDiv(a, b))))
-RECURSIVE RPowInt(_, _)
-RPowInt(a, e) == IF e = 0 THEN [n |-> 1, d |-> 1] ELSE RMul(a, RPowInt(a, e - 1))
+\* arithmetic stays exact only while numerators and denominators are small: beyond that the value is "open"
+SmallR(a) == Abs(a.n) <= 30000 /\ a.d <= 30000
+RECURSIVE RPowSafe(_, _)
+RPowSafe(a, e) == IF e = 0 THEN [ok |-> TRUE, r |-> [n |-> 1, d |-> 1]]
+                  ELSE IF e > 31 THEN [ok |-> FALSE, r |-> [n |-> 1, d |-> 1]]
+                  ELSE LET p == RPowSafe(a, e - 1) IN
+                       IF ~p.ok \/ ~SmallR(p.r) \/ ~SmallR(a) THEN [ok |-> FALSE, r |-> [n |-> 1, d |-> 1]] ELSE [ok |-> TRUE, r |-> RMul(a, p.r)]
 
-\* "open": a value outside the modelled arithmetic (fractional exponent): any observed value is accepted for it
+\* "open": a value outside the modelled arithmetic (fractional exponent, magnitude beyond exact range): any observed value is accepted for it
 OpenV == [k |-> "open", n |-> 0, d |-> 1]
 Arith(op, x, y) ==
   IF x.k = "open" \/ y.k = "open" THEN OpenV
   ELSE IF ~IsRat(x) \/ ~IsRat(y) THEN NaNV
   ELSE LET a == R(x) b == R(y) IN
+       IF ~SmallR(a) \/ ~SmallR(b) THEN OpenV ELSE
        CASE op = "add" -> FromR(RAdd(a, b))
          [] op = "sub" -> FromR(RSub(a, b))
          [] op = "mul" -> FromR(RMul(a, b))
          [] op = "div" -> IF b.n = 0 THEN NaNV ELSE FromR(RDiv(a, b))
          [] op = "mod" -> IF b.n = 0 THEN NaNV ELSE FromR(RMod(a, b))
-         [] op = "pow" -> IF b.d = 1 /\ b.n >= 0 THEN FromR(RPowInt(a, b.n))
-                          ELSE IF b.d = 1 /\ a.n # 0 THEN FromR(RDiv([n |-> 1, d |-> 1], RPowInt(a, 0 - b.n)))
-                          ELSE IF b.d = 1 THEN [k |-> "pinf", n |-> 0, d |-> 1]      \* 0 ^ negative
-                          ELSE OpenV         \* fractional exponents are outside the modelled domain
+         [] op = "pow" -> IF b.d # 1 THEN OpenV                                   \* fractional exponents are outside the modelled domain
+                          ELSE IF b.n >= 0 THEN (LET p == RPowSafe(a, b.n) IN IF p.ok THEN FromR(p.r) ELSE OpenV)
+                          ELSE IF a.n = 0 THEN [k |-> "pinf", n |-> 0, d |-> 1]   \* 0 ^ negative
+                          ELSE (LET p == RPowSafe(a, 0 - b.n) IN IF p.ok THEN FromR(RDiv([n |-> 1, d |-> 1], p.r)) ELSE OpenV)
 CmpOps == {"eq", "neq", "gt", "gte", "lt", "lte"}
 Holds(op, x, y) == IF ~IsRat(x) \/ ~IsRat(y) THEN op = "neq" ELSE RCmp(op, R(x), R(y))
+IsOpen(x) == x.k = "open"
 NumLt(x, y) == IsRat(x) /\ IsRat(y) /\ RLt(R(x), R(y))
 
 \* ---- batch aggregators over a non-empty sequence of rationals in time order
